@@ -607,9 +607,12 @@ def small_scope_iter(shard, nshards, rng=None, limit=None):
 
 def chain(rng, length, family=None):
     fam = family or rng.choice(["neg_add", "minus_right", "minus_left", "divide_right", "divide_left", "rec_mul",
-                                "neg", "rec", "npow", "root", "explog", "add_nest", "mul_nest", "pow_pow", "mixed"])
+                                "neg", "rec", "npow", "root", "explog", "add_nest", "mul_nest", "pow_pow", "mixed",
+                                "prod_sums", "neg_prod_sums", "sum_prods", "rec_sums", "log_sum", "exp_prod"])
     x = ("Variable", "x")
     t = x
+    if fam in ("prod_sums", "neg_prod_sums"):
+        t = ("Constant", rng.choice([2, -1, 3, 0.5]))
     vs = [("Variable", "x"), ("Variable", "y"), ("Constant", 2), ("Variable", "z")]
     for i in range(length):
         v = vs[i % len(vs)]
@@ -642,6 +645,18 @@ def chain(rng, length, family=None):
             t = ("Multiply", v, t, ("Constant", 1 + i % 2))
         elif f == "pow_pow":
             t = ("Power", t, v)
+        elif f == "prod_sums":          # distribution bait: constant * (a+b) * (c+d) * ...
+            t = ("Multiply", t, ("Add", v, vs[(i + 1) % len(vs)]))
+        elif f == "neg_prod_sums":
+            t = ("Multiply", ("Negation", ("Add", v, vs[(i + 1) % len(vs)])), t)
+        elif f == "sum_prods":
+            t = ("Add", ("Multiply", v, t), ("Multiply", ("Constant", 2), vs[(i + 1) % len(vs)]))
+        elif f == "rec_sums":
+            t = ("Reciprocal", ("Add", t, v))
+        elif f == "log_sum":
+            t = ("Add", ("Logarithm", v, [None, 2, 10][i % 3]), t)
+        elif f == "exp_prod":
+            t = ("Multiply", ("Exponential", v, [None, 2][i % 2]), t, ("NthPower", v, 1 + i % 3))
     return t, fam
 
 
